@@ -95,6 +95,26 @@ def gen(rng, inside=True):
         target = min(max(position + rng.randrange(-70000, 70000) // max(1, gain if gain < 70000 else 1), 0), 2**32 - 1)
     else:
         target = pick(U32, 0, 2**32)
+    if rng.random() < 0.12:
+        # desired velocity at the very edge of the signed 64-bit range (still inside the property's hypothesis)
+        gain = rng.choice([2**32 - 1, 2**32 - 2, 2**31, 2**31 + 1, 65537, rng.randrange(2**20, 2**32)])
+        edge = rng.choice([2**63 - 1, -2**63])
+        diff = (edge - rng.randrange(0, 70000) * (1 if edge > 0 else -1)) // gain if edge > 0 else -((-edge - rng.randrange(0, 70000)) // gain)
+        if diff >= 0:
+            position = rng.randrange(-2**31, 1)
+        else:
+            position = rng.randrange(0, 2**31)
+        target = diff + position
+        if not 0 <= target < 2**32:
+            position = 0 if diff >= 0 else 2**31 - 1
+            target = min(max(diff + position, 0), 2**32 - 1)
+        vprev = rng.choice([vmax, -vmax, 0, -min(1, vmax)]) if inside else vprev
+        if rng.random() < 0.5:
+            # exact factorisations next to the edge: (2^32 - 2m)(2^31 + m) = 2^63 - 2m^2
+            m = rng.randrange(1, 128)
+            gain, diff = 2**32 - 2 * m, 2**31 + m
+            position = rng.randrange(-2**31, -m)
+            target = diff + position
     return {"gain": gain, "target": target, "position": position, "vprev": vprev, "acc": acc, "vmax": vmax,
             "low": rng.random() < 0.3, "high": rng.random() < 0.3}
 
